@@ -1,6 +1,7 @@
 // vv-harness: runs the real crates from /repo on generated cases.
 // stdin: one case (val) per line; stdout: one observation (val) per line.
 mod fam_be;
+mod fam_conc;
 mod fam_dmn;
 mod fam_fe;
 mod fam_kern;
@@ -36,6 +37,7 @@ fn run_case(c: &Val) -> Val {
         "shut" => fam_shut::run(args),
         "kern" => fam_kern::run(args),
         "race" => fam_race::run(args),
+        "conc" => fam_conc::run(args),
         "iovs" => {
             let lens: Vec<usize> = args[0].as_l().unwrap_or(&[]).iter().map(|v| v.as_u64().unwrap_or(0) as usize).collect();
             let skip = args[1].as_u64().unwrap_or(0) as usize;
